@@ -2,14 +2,18 @@
 
 package harness
 
-// C18, stream "guard-overflow-params": the state class in which x/inflation's own export cannot be
-// imported.  Governance (MsgUpdateParams with the gov authority, through the message router) stores
-// exponential-calculation parameters that every validator of x/inflation accepts but for which
-// CalculateEpochMintProvision overflows LegacyDec (315 bits).  UpdateParams does not recompute the
-// provision, so the chain keeps running; the export is accepted by the module's ValidateGenesis;
-// InitGenesis recomputes the provision and panics.  The stream also records, on a discarded branch
-// of the live chain, whether the running chain itself panics in BeginBlocker at the next period
-// boundary (where AfterEpochEnd recomputes the provision).
+// C18, stream "guard-overflow-params": regression test for the finding "export of a reachable state
+// not importable".  Governance (MsgUpdateParams with the gov authority, through the message router)
+// submits exponential-calculation parameters that pass every range check of x/inflation but for
+// which CalculateEpochMintProvision overflows LegacyDec (315 bits).
+//   - Repaired code (validateExponentialCalculation evaluates the worst case of the provision,
+//     provisionComputable): UpdateParams REJECTS the three parameter sets, the state stays an
+//     ordinary one, export / import / export go through and every monitor is quiet.
+//   - Code before the repair: the parameters were accepted and stored (UpdateParams does not
+//     recompute the provision, so the chain kept running), the module's ValidateGenesis accepted the
+//     export, InitGenesis recomputed the provision and panicked ("Int overflow"): the monitor
+//     export-of-reachable-state-not-importable fires; the running chain panicked the same way in
+//     BeginBlocker at the next period boundary (recorded by guardProbe on a discarded branch).
 //
 // The case JSON of this stream carries the marker "guard-overflow-params" (its stream name); no
 // other stream and no operation kind of other streams contains that string.
